@@ -200,6 +200,12 @@ func init() {
 		r.ExploreSpecs(collSpecs(r, or, []string{"t", "s60", "A:t"}))
 		r.ExploreSpecs(collCompactSpecs(r, or, 4))
 		r.ExploreSpecs(nestedFor(r, append([]string{"events"}, or...)))
+		// scalars exactly on the CBOR width boundaries (the size helpers switch encodings there)
+		bcl := []string{"b23", "b24", "b255", "b256", "b65535", "b65536", "b4294967295", "b4294967296", "b18446744073709551615"}
+		r.ExploreSpecs([]Spec{
+			{Name: "arr-width-boundaries-T256", Kind: "arr-small", T: 256, L: 2, Classes: bcl, Oracles: or},
+			{Name: "map-width-boundaries-T256", Kind: "map-small", T: 256, Keys: 2, Classes: bcl, Oracles: or},
+		})
 		// containers produced by the bulk constructors report sizes too (root/non-root prefix conversion
 		// when the built leaves are merged into a root)
 		r.RunTaskGroup("bulk-built arrays and maps (sizes)", "c17", bulkBuiltArgs())
@@ -214,6 +220,8 @@ func init() {
 		r.ExploreSpecs(collSpecs(r, or, []string{"t", "s60", "A:t"}))
 		r.ExploreSpecs(collCompactSpecs(r, or, 4))
 		r.ExploreSpecs(nestedFor(r, append([]string{"events"}, or...)))
+		// registers with 200-300 inlined children (one-byte index into the slab's table of inlined extra data)
+		r.RunTaskGroup("containers with 200-300 inlined children in one slab (slab sizes 8192, 32768)", "manykids", manyKidsArgs("C07"))
 	}})
 	RegisterCheck(&CheckDef{ID: "C09", Level: "model_checking", Run: func(r *Run) {
 		r.Rule = "explicit-state BFS over array/map/nested spaces biased to auxiliary slabs (externalised values/keys, children crossing the inline limit, splits/merges/promotions, bulk pops); the harness disposes of every value handed back; after every transition and again after commit: IDs in (write set ∪ ledger) == IDs reachable by an independent traversal from the live roots, every slab referenced once, one owner per tree; CheckStorageHealth must agree after reopen"
@@ -236,6 +244,9 @@ func init() {
 		r.ExploreSpecs(collSpecs(r, or, []string{"t", "s60", "limM+"}))
 		r.ExploreSpecs(nestedFor(r, or))
 		r.ExploreSpecs([]Spec{
+			// values far larger than any slab (> 64 KiB), under inline and externalised keys
+			{Name: "reach-giant-map", Kind: "map-small", T: 256, Keys: 1, Extra: map[string]int{"kLim": 1}, Classes: []string{"t", "giant"}, Oracles: or},
+			{Name: "reach-giant-arr", Kind: "arr-small", T: 256, L: 2, Classes: []string{"t", "giant"}, Oracles: or},
 			{Name: "reach-rej-nested-arr", Kind: "nested", T: 256, Keys: 2, Classes: []string{"t", "h", "limA+", "A"}, Oracles: []string{"sem", "reach"},
 				Extra: map[string]int{"rootmap": 0, "lr": 2, "lc": 2, "maxc": 2, "depth": 2, "nosettype": 1, "rej": 1, "detach": 1}},
 		})
